@@ -124,6 +124,25 @@ func c20Gen(t *rapid.T) (hostile, twin c20Req, desc string, rawValue string) {
 		}
 		mk := func(k string, v any) map[string]any { return map[string]any{op: map[string]any{k: v}} }
 		hb, bb := mk(hk, hv), mk(bk, bv)
+		if rapid.IntRange(0, 5).Draw(t, "hostileOperator") == 0 {
+			// the operator names are client text too: over a list of sub-filters, or over one comparison
+			hop := rapid.SampledFrom([]string{"$or true or", "$and 1=1 and", "$or/**/", "$or'", "$or;--", "$and) or (", "$OR", "$or ", "$" + hostileString(t, "opTail")}).Draw(t, "hostileOp")
+			plain := map[string]any{"$match": map[string]any{bk: bv}}
+			method := "GET"
+			q := url.Values{}
+			if pit {
+				q.Set("pit", "2023-01-01T00:00:00Z")
+			}
+			path := "/api/ledger/v2/l1/" + ep
+			if rapid.Bool().Draw(t, "opOverList") {
+				hb = map[string]any{hop: []any{plain, plain}}
+				bb = map[string]any{"$or": []any{plain, plain}}
+			} else {
+				hb = map[string]any{hop: map[string]any{bk: bv}}
+				bb = plain
+			}
+			return c20Req{method, path, q, hb}, c20Req{method, path, q, bb}, fmt.Sprintf("v2 %s %s operator %s", method, ep, "hostile"), hop
+		}
 		switch rapid.IntRange(0, 3).Draw(t, "nest") {
 		case 0:
 			hb = map[string]any{"$and": []any{hb, mk(hk, hv)}}
@@ -194,7 +213,7 @@ func c20Gen(t *rapid.T) (hostile, twin c20Req, desc string, rawValue string) {
 
 func TestC20(t *testing.T) {
 	c := evid.New("C20")
-	c.Rule = "requests to every listing of both API versions (v2 JSON bodies with $match/$lt/$lte/$gt/$gte, nested $and/$or, GET and HEAD; v1 query parameters address, account, source, destination, reference, metadata[k], balance, balanceOperator, start_time, end_time, after), with and without pit/expand, carrying values and metadata keys assembled from hostile fragments (quotes, doubled quotes, backslashes, comment markers, semicolons, dollar quotes, parentheses, non-ASCII, newlines, 10 kB runs) or JSON non-strings; each is paired with a benign twin of the same shape. The real routers run over ledgerstore.Store over a recording driver. Oracle: the request sent twice is treated the same way both times; hostile request rejected, or every statement lexes as PostgreSQL and has the twin's token skeleton (string constants and numbers abstracted). Non-trivial = the hostile request reached the driver and its value contains one of ' \\ \" -- /* ; distinct by (endpoint, key, operator, value)."
+	c.Rule = "requests to every listing of both API versions (v2 JSON bodies with $match/$lt/$lte/$gt/$gte, nested $and/$or, GET and HEAD; v1 query parameters address, account, source, destination, reference, metadata[k], balance, balanceOperator, start_time, end_time, after), with and without pit/expand, carrying values, metadata keys and (one case in six) operator names assembled from hostile fragments (quotes, doubled quotes, backslashes, comment markers, semicolons, dollar quotes, parentheses, non-ASCII, newlines, 10 kB runs) or JSON non-strings; each is paired with a benign twin of the same shape. The real routers run over ledgerstore.Store over a recording driver. Oracle: the request sent twice is treated the same way both times; hostile request rejected, or every statement lexes as PostgreSQL and has the twin's token skeleton (string constants and numbers abstracted). Non-trivial = the hostile request reached the driver and its value contains one of ' \\ \" -- /* ; distinct by (endpoint, key, operator, value)."
 	c.Assumptions = []string{"the PostgreSQL lexer of harness/sqlrec (standard_conforming_strings=on) is the judge of SQL structure", "the content of a jsonpath / JSON document inside a string constant is not inspected"}
 	runProp(t, c, func(rt *rapid.T) {
 		hostile, twin, desc, val := c20Gen(rt)
